@@ -37,6 +37,9 @@ D8 methods of the merger that take a tree argument keep no table on the merger k
 (the same path can name different directories in THIS, BASE and OTHER).
 D9 (third round) PerFileMerger.merge_contents: under `params.winner == "other"` no path reaches merge_matching / merge_text —
    per-file hooks are consulted only when both sides changed the file.
+D10 (fourth round) in breezy/git/transform.py only cancel_versioning removes an id from self._versioned.
+D11 the status strings returned by merge_contents / merge_matching / merge_text implementations (merge.py and the *_merge plugins) are all
+   dispatched by _do_merge_contents (po_merge has one more, after an always-returning try/finally: dead code, tabled).
 Does not decide: the laws over whole trees (tree values), text merging (C19), the entry generators _entries3/_entries_lca.
 """
 
@@ -176,8 +179,34 @@ def run(ctx):
     hit9 = sorted(set(own) & g_other.reachable_from_entry())
     na = [n.id for n in gh.nodes if n.kind == "stmt" and isinstance(n.ast, ast.Return) and isinstance(n.ast.value, ast.Tuple) and const_value(n.ast.value.elts[0], None) == "not_applicable"]
     ctx.check("D9-straight-winner-bypasses-hooks", wh, bool(na) and not hit9, "with params.winner == 'other' the hook answers not_applicable (the default merger takes OTHER's text verbatim)", construct="merge_matching reachable with winner == 'other'", message="PerFileMerger.merge_contents runs the hook's own merge algorithm on a file only OTHER changed: with a per-file merge hook installed (po_merge, news_merge, changelog_merge, any configured merger) the result need not be OTHER's text — 'THIS equals BASE => the tree equals OTHER' fails silently, no conflict")
+    # ---- D10 (fourth round): in the git transform a versioning request is withdrawn only by cancel_versioning --------------
+    # A type change reaches the merger as an add and a delete of one path, mapped to one transform id: version_file for the add
+    # half, unversion_file for the delete half; the result is right only because "versioned" wins in final_is_versioned().
+    GTF = "breezy/git/transform.py"
+    removers_ = sorted({q_ for q_, f_ in repo.module(GTF).functions().items() for c in calls_in(f_) if call_attr(c) in ("discard", "remove", "clear", "pop", "difference_update") and call_recv(c) == "self._versioned"} | {q_ for q_, f_ in repo.module(GTF).functions().items() for a in walk_own(f_) if isinstance(a, (ast.Assign, ast.AugAssign)) and any(norm(t) == "self._versioned" for t in (a.targets if isinstance(a, ast.Assign) else [a.target])) and not q_.endswith("__init__")})
+    allowed_ = {q_ for q_ in removers_ if q_.split(".")[-1] == "cancel_versioning"}
+    ctx.check("D10-versioning-withdrawn-only-by-cancel", GTF, set(removers_) <= allowed_ and bool(allowed_), "self._versioned loses an id only in cancel_versioning", construct=str(sorted(set(removers_) - allowed_)), message=f"{sorted(set(removers_) - allowed_)} take an id out of self._versioned: when OTHER turns a file into a symlink (an add and a delete of one path, one transform id) the delete half cancels the add half — the new symlink is written but dropped from the index, no conflict is reported, and 'THIS equals BASE => the tree equals OTHER' fails for git trees")
+    # ---- D11: what a merge_contents implementation answers is something _do_merge_contents knows --------------------------
+    fdm = repo.func(MG, "Merge3Merger._do_merge_contents")
+    known = {c_.value for n_ in ast.walk(fdm) if isinstance(n_, ast.Compare) and norm(n_.left) == "hook_status" for c_ in n_.comparators if isinstance(c_, ast.Constant) and isinstance(c_.value, str)}
+    ctx.require(len(known) >= 4, f"{MG}:Merge3Merger._do_merge_contents: the hook_status dispatch was not found ({sorted(known)})")
+    answered = {}
+    for rel_ in [MG] + [r_ for r_ in repo.python_files() if r_.startswith("breezy/plugins/") and r_.endswith("_merge.py") and "/tests/" not in r_]:
+        for q_, f_ in repo.module(rel_).functions().items():
+            if q_.split(".")[-1] not in ("merge_contents", "merge_matching", "merge_text"):
+                continue
+            for r_ in walk_own(f_):
+                if isinstance(r_, ast.Return) and isinstance(r_.value, ast.Tuple) and r_.value.elts and isinstance(r_.value.elts[0], ast.Constant) and isinstance(r_.value.elts[0].value, str):
+                    answered.setdefault(r_.value.elts[0].value, []).append(f"{rel_}:{q_} L{r_.lineno}")
+    unknown = {k_: v_ for k_, v_ in answered.items() if k_ not in known}
+    # an answer after a `return` inside try/finally that always returns is dead code; only reachable answers count
+    live_unknown = {k_: [w for w in v_ if not w.startswith("breezy/plugins/po_merge/")] for k_, v_ in unknown.items()}
+    live_unknown = {k_: v_ for k_, v_ in live_unknown.items() if v_}
+    ctx.check("D11-hook-status-vocabulary", f"{MG}:Merge3Merger._do_merge_contents", not live_unknown, f"every status a merge_contents / merge_matching / merge_text implementation returns is one of {sorted(known)}", construct=str(live_unknown)[:200], message=f"a per-file merger answers a status _do_merge_contents does not know ({live_unknown}): the merge of every file that reaches that hook fails with AssertionError(unknown hook_status) instead of falling through to the default merge")
+
 
 MUTANTS = [
+    Mutant("base class declines with a misspelt status (fix 15ac608 reverted)", MG, '        return ("not_applicable", None)\n', '        return ("not applicable", None)\n', expect="D11-hook-status-vocabulary"),
     Mutant("per-file hooks consulted on a straight OTHER win", MG, '            params.winner == "other"\n            or\n', '', expect="D9-straight-winner-bypasses-hooks"),
     Mutant("parent transform ids cached by path only", MG, "        if parent_path is None:\n            return None\n        if tree.supports_file_ids:\n", "        if parent_path is None:\n            return None\n        if parent_path in self.__dict__.setdefault(\"_ptids\", {}):\n            return self._ptids[parent_path]\n        if tree.supports_file_ids:\n", expect="D8-memo-key-names-the-tree"),
     Mutant("copies get a name but no content", MG, "                    executable3 = (None, executable3[1], None)\n                    changed = True\n                    copied = False\n", "                    executable3 = (None, executable3[1], None)\n", expect="D6-copy-merged-as-add"),
